@@ -39,8 +39,16 @@ var c19Heads = [...]string{
 // H_C19_insert: inserting another header (symbolic name/value) at any
 // position, repeating a fingerprinted header later, or changing the value of
 // a non-fingerprinted header leaves the signature unchanged.
-func H_C19_insert(head, pos, w int) {
-	lines := [...]string{"Via: SIP/2.0/UDP h;branch=z9hG4bKab12\r\n", "f: <sip:a>;tag=x1\r\n", "To: <sip:b>\r\n", "Call-ID: ab@1.2.3.4\r\n", "CSeq: 1 INVITE\r\n", "m: <sip:c>\r\n"}
+func H_C19_insert(head, pos, w int) { H_C19_insert_rot(head, pos, w, 0) }
+
+// H_C19_insert_rot: as H_C19_insert with the skeleton headers rotated by rot
+// (rot = 1 puts the Via header last).
+func H_C19_insert_rot(head, pos, w, rot int) {
+	lines0 := [...]string{"Via: SIP/2.0/UDP h;branch=z9hG4bKa-1.b_2+c\r\n", "f: <sip:a>;tag=x1\r\n", "To: <sip:b>\r\n", "Call-ID: ab@1.2.3.4\r\n", "CSeq: 1 INVITE\r\n", "m: <sip:c>\r\n"}
+	var lines [len(lines0)]string
+	for i := range lines0 {
+		lines[i] = lines0[(i+rot)%len(lines0)]
+	}
 	xv := vBytes(w)
 	noEOL(xv)
 	a := []byte(c19Heads[head])
@@ -96,7 +104,7 @@ func H_C19_cap(hcap, w int) {
 		vAssume(isAlnum(xn[i]) || xn[i] == '-')
 	}
 	b := []byte(c19Heads[0])
-	b = append(b, "Via: SIP/2.0/UDP h;branch=z9hG4bKab12\r\n"...)
+	b = append(b, "Via: SIP/2.0/UDP h;branch=z9hG4bKa-1.b_2+c\r\n"...)
 	b = append(b, xn...) // symbolic header name: may or may not be a fingerprinted one
 	b = append(b, ": <sip:a>;tag=x1\r\nTo: <sip:b>\r\ni: ab\r\nCSeq: 1 INVITE\r\n\r\n"...)
 	var ma, mb PSIPMsg
@@ -125,7 +133,7 @@ func H_C19_chunk(w int) {
 	xv := vBytes(w)
 	noEOL(xv)
 	b := []byte(c19Heads[0])
-	b = append(b, "v: SIP/2.0/UDP h;branch=z9hG4bKab12\r\nFrom: <sip:a>;tag=x1\r\nX:"...)
+	b = append(b, "v: SIP/2.0/UDP h;branch=z9hG4bKa-1.b_2+c\r\nFrom: <sip:a>;tag=x1\r\nX:"...)
 	b = append(b, xv...)
 	b = append(b, "\r\nt: <sip:b>\r\ni: ab\r\nCSeq: 1 INVITE\r\n\r\n"...)
 	var one, inc PSIPMsg
